@@ -48,11 +48,6 @@ def withdraw_unconfirmed(ctx, chk):
     new = new_functions(ctx)
     if not new:
         return 0
-    dropped = getattr(ctx.cg, "_effects_dropped", None)
-    if dropped:
-        fns = sorted({k.split(":")[-1] for k, _ in dropped})
-        chk.error("unconfirmed", "exceptions that may be born in the new function(s) %s were not followed (no rule instance has been confirmed "
-                                 "for them): the escape analysis is incomplete there" % ", ".join(fns[:4]))
     near = _near(ctx, new)
     by_site = {}
     for k, f in ctx.ix.funcs.items():
@@ -78,4 +73,36 @@ def withdraw_unconfirmed(ctx, chk):
             n += 1
             chk.error(f.rule, "cannot decide `%s`: %s was restructured around function(s) this rule was never confirmed against (%s)" % (
                 str(f.key)[:80], sorted(cands & near)[0].split(":")[-1], ", ".join(sorted(x.split(":")[-1] for x in new)[:3])))
+    return n
+
+
+def withdraw_by_second_pass(ctx, chk, mod, make_ctx):
+    """findings that exist only because of what may happen INSIDE a function no rule was confirmed against (an exception born there that
+    travels up to a restore-on-all-exits rule, say) cannot be located by the finding's own position.  They are found by difference: the
+    rules are run a second time with the primitive may-raise sites of the new functions switched off; a finding of the first run that is
+    absent from the second is withdrawn as ANALYSIS-ERROR.  Nothing happens when there are no new functions or no findings."""
+    new = new_functions(ctx)
+    listed, unlisted, _ = chk.classify()
+    if not new or not unlisted:
+        return 0
+    from .report import Check
+    from .repo import AnalysisError
+    os.environ["SA_DROP_UNCONFIRMED"] = "1"
+    try:
+        ctx2 = make_ctx()
+        chk2 = Check(chk.prop, "quick", ctx2.repo, quiet=True)
+        try:
+            mod.run(ctx2, chk2)
+        except AnalysisError:
+            return 0
+    finally:
+        os.environ.pop("SA_DROP_UNCONFIRMED", None)
+    n = 0
+    for f in unlisted:
+        ident = f.ident()
+        if ident not in chk2.findings and ident in chk.findings:
+            del chk.findings[ident]
+            n += 1
+            chk.error(f.rule, "cannot decide `%s`: it depends on what may be raised inside function(s) this rule was never confirmed against (%s)" % (
+                str(f.key)[:80], ", ".join(sorted(x.split(":")[-1] for x in new)[:3])))
     return n
